@@ -12,7 +12,11 @@ the property's own predicate on the implementation's output, independently of th
   diagram, the clause sizes add up to the model count); `sat_clauses` and `to_dnf` list the same set;
 * clause valuations: exactly 2^k items, each extends the clause, strictly increasing (variable 0 least
   significant);
-* owned iterators: same sequences, `Bdd::from(iterator)` is the input diagram, also after k items.
+* owned iterators: same sequences, `Bdd::from(iterator)` is the input diagram, also after k items;
+* iterator protocol: after j calls of `next()` every provided method (`count`, `last`, `nth`, `size_hint`,
+  `collect`, `take`, `fold`, `min`, `max`, `clone`, `skip`, `step_by`) returns what the remaining items of
+  the implementation's own fresh `collect()` imply, the iterator is fused, `exact_cardinality` /
+  `exact_clause_cardinality` = `count()` + j.
 -/
 namespace B.Drive.C08
 open B B.Drive B.Iter Std
@@ -212,6 +216,54 @@ def sizeTag (A : Arr) : List String :=
   (if isCanon A then [] else ["noncanon"]) ++
   (if numVars A ≥ 10 then ["gap"] else [])
 
+/-! ### iterator protocol: what `next()` j times followed by one provided method must return, given the
+    full list of items of a fresh iterator -/
+
+def showOptItem : Option String → String
+  | some x => "some:" ++ x
+  | none => "none"
+
+def stepBy (k : Nat) : Nat → List String → List String
+  | _, [] => []
+  | 0, x :: xs => x :: stepBy k (k - 1) xs
+  | i + 1, _ :: xs => stepBy k i xs
+
+/-- smallest / largest item (items of one sequence have equal length, `0 < 1`: the derived `Ord` of
+    `BddValuation`); `min` keeps the first of equal items, `max` the last -/
+def minItem (xs : List String) : Option String :=
+  xs.foldl (fun acc x => match acc with | none => some x | some m => if x < m then some x else some m) none
+def maxItem (xs : List String) : Option String :=
+  xs.foldl (fun acc x => match acc with | none => some x | some m => if x < m then some m else some x) none
+
+/-- expected `[result, rest, fused, back]`; `hint` is the expected `size_hint` text (model only) -/
+def protoExpect (items : List String) (j : Nat) (method : String) (k : Nat) (hasOrd hasClone : Bool)
+    (back : String) : List String :=
+  let rem := items.drop j
+  let survives (res : String) (rest : List String) := [res, showSeq rest, "NNN", back]
+  let consumed (res : String) := [res, "-", "-", "-"]
+  match method with
+  | "count" => consumed (toString rem.length)
+  | "last" => consumed (showOptItem rem.getLast?)
+  | "nth" => survives (showOptItem rem[k]?) (rem.drop (k + 1))
+  | "size_hint" => survives "0/-" rem
+  | "collect" => consumed (showSeq rem)
+  | "take" => survives (showSeq (rem.take k)) (rem.drop k)
+  | "fold" => consumed (showSeq rem)
+  | "min" => consumed (if hasOrd then showOptItem (minItem rem) else "n/a")
+  | "max" => consumed (if hasOrd then showOptItem (maxItem rem) else "n/a")
+  | "clone" => consumed (if hasClone then showSeq rem ++ "/" ++ showSeq rem else "n/a")
+  | "skip" => consumed (showSeq (rem.drop k))
+  | "step_by" => consumed (showSeq (stepBy k 0 rem))
+  | "next" => survives "-" rem
+  | _ => consumed "?"
+
+/-- number of root-to-one paths (for the cross-check with `exact_clause_cardinality`) -/
+def cntPaths (A : Arr) : Nat → Nat → Nat
+  | _, 0 => 0
+  | _, 1 => 1
+  | 0, _ => 0
+  | f + 1, p => let nd := nodeAt A p; cntPaths A f nd.low + cntPaths A f nd.high
+
 def handle (key : String) (ins obs : List String) : Verdict :=
   match key, ins, obs with
   | "C08.vals", [b], [res] =>
@@ -302,6 +354,80 @@ def handle (key : String) (ins obs : List String) : Verdict :=
       { agree := model == res ++ " " ++ seen, model, fail, nontrivial := inside && !ops.isEmpty,
         tags := ["hvals", s!"n{n}", if inside then "inside" else "beyond", s!"free{free}",
           if c.length > n then "longer" else if c.length == n && pvGet c (n - 1) == none && n > 0 then "trailing-unset" else "plain"] }
+    | _, _ => Verdict.bad "args"
+  | "C08.proto", [kind, src, j, method, k], [all, res, rest, fused, back] =>
+    match j.toNat?, k.toNat? with
+    | some j, some k =>
+      let isBdd := kind == "pc" || kind == "pv" || kind == "oc" || kind == "ov"
+      let owned := kind == "oc" || kind == "ov"
+      let hasOrd := kind != "pc" && kind != "oc"
+      let hasClone := kind == "cv" || kind == "uv" || kind == "ev"
+      let modelAll : Option (List String) :=
+        if isBdd then
+          match parseArr? src with
+          | some A =>
+            if kind == "pc" || kind == "oc" then
+              (match pathList A bigFuel with | .ok l => some (l.map (showPartial (numVars A))) | _ => none)
+            else (match satList A bigFuel with | .ok l => some (l.map showBits) | _ => none)
+          | none => none
+        else if kind == "cv" then
+          match src.splitOn "@" with
+          | [c, n] => (match n.toNat? with
+            | some n => (match cvNew (parsePartial c) n with
+              | .ok st => (match collect cvNext bigFuel st with | .ok l => some (l.map showBits) | _ => none)
+              | _ => none)
+            | none => none)
+          | _ => none
+        else if kind == "uv" || kind == "bv" then
+          match src.toNat? with
+          | some n => (match collect cvNext bigFuel (cvUnconstrained n) with | .ok l => some (l.map showBits) | _ => none)
+          | none => none
+        else some []
+      let backText := if owned then src else "-"
+      let model := match modelAll with
+        | some items => " ".intercalate (showSeq items :: protoExpect items j method k hasOrd hasClone backText)
+        | none => "panic panic panic panic panic"
+      -- the predicate: what the implementation's own fresh `collect()` implies for the rest of the protocol
+      let fail := match parseSeq? all with
+        | none => some ("outcome:" ++ all)
+        | some items =>
+          let exp := protoExpect items j method k hasOrd hasClone backText
+          let remN := (items.drop j).length
+          firstFail [
+            if method == "size_hint" then
+              (match res.splitOn "/" with
+               | [lo, hi] =>
+                 (match lo.toNat? with
+                  | some lo => if lo ≤ remN && (hi == "-" || (hi.toNat?.map (fun h => decide (remN ≤ h))).getD false) then none
+                               else some "iterator-protocol:size_hint"
+                  | none => some ("outcome:" ++ res))
+               | _ => some ("outcome:" ++ res))
+            else if res == exp.getD 0 "" then none else some ("iterator-protocol:" ++ method),
+            if rest == exp.getD 1 "" then none else some ("iterator-protocol:items-after-" ++ method),
+            if fused == exp.getD 2 "" then none else some "iterator-protocol:not-fused",
+            if back == exp.getD 3 "" then none else some "owned-iterator-gives-back-another-bdd"]
+      { agree := model == " ".intercalate obs, model, fail,
+        nontrivial := (parseSeq? all).any fun items => items.length ≥ 2 && j ≥ 1,
+        tags := ["proto", kind, method, if j == 0 then "j0" else
+          (match parseSeq? all with | some items => if j < items.length then "jmid" else if j == items.length then "jN" else "jN+" | none => "j?")] }
+    | _, _ => Verdict.bad "args"
+  | "C08.card", [b, j], [ec, cv, ecc, cc] =>
+    match parseArr? b, j.toNat? with
+    | some A, some j =>
+      let mv := match satList A bigFuel with | .ok l => some l.length | _ => none
+      let mc := match pathList A bigFuel with | .ok l => some l.length | _ => none
+      let model := match mv, mc with
+        | some v, some c => s!"{v} {v - min j v} {c} {c - min j c}"
+        | _, _ => "panic"
+      let nV := satCount A
+      let nC := if A.size == 1 then 0 else cntPaths A (numVars A + 2) (root A)
+      let fail := firstFail [
+        if ec.toNat? == some nV then none else some "exact_cardinality",
+        if cv.toNat? == some (nV - min j nV) then none else some "iterator-protocol:count(sat_valuations)",
+        if ecc.toNat? == some nC then none else some "exact_clause_cardinality",
+        if cc.toNat? == some (nC - min j nC) then none else some "iterator-protocol:count(sat_clauses)"]
+      { agree := model == " ".intercalate obs, model, fail, nontrivial := A.size > 2 && j ≥ 1,
+        tags := "card" :: (if j == 0 then "j0" else "j+") :: sizeTag A }
     | _, _ => Verdict.bad "args"
   | "C08.cvals", [clause, n], [res] =>
     match n.toNat? with
